@@ -1849,7 +1849,11 @@ func (lbc *LoadBalancerController) handleSecretUpdate(secret *api_v1.Secret, res
 
 	resourceExes := lbc.createExtendedResources(resources)
 
-	warnings, addOrUpdateErr = lbc.configurator.AddOrUpdateResources(resourceExes, !lbc.configurator.DynamicSSLReloadEnabled())
+	// Only certificate/key pairs are picked up by NGINX at run time (they are referenced through $secret_dir_path).
+	// Files named literally in the configuration - CA bundles, CRLs, JWKs - are read when the configuration is
+	// loaded, so an update of such a Secret needs a reload even though the generated configuration is unchanged.
+	reloadIfUnchanged := !lbc.configurator.DynamicSSLReloadEnabled() || secret.Type != api_v1.SecretTypeTLS
+	warnings, addOrUpdateErr = lbc.configurator.AddOrUpdateResources(resourceExes, reloadIfUnchanged)
 	if addOrUpdateErr != nil {
 		nl.Errorf(lbc.Logger, "Error when updating Secret %v: %v", secretNsName, addOrUpdateErr)
 		lbc.recorder.Eventf(lbc.metadata.pod, api_v1.EventTypeWarning, nl.EventReasonUpdatedWithError, "%v was updated, but not applied: %v", secretNsName, addOrUpdateErr)
